@@ -15,24 +15,24 @@ def prop(pid):
         cls.pid = pid; cls.statement = STATEMENTS[pid]; REG[pid] = cls(); return cls
     return deco
 TESTED_ONLY = {
- 'C01': ['the vertex-set reading (basis of exactly k+1 points, no two simplices sharing a basis) is proved for every history of in-contract operations (points, add by basis, deletions, restrict, renames); after add by faces with caller-supplied faces, subdivide, bulk add, compose, and maxOrder = largest populated order: proved only for complexes on <= 4 points (kernel sweep); beyond that by the wf oracle after every step of every history'],
+ 'C01': ['the vertex-set reading (basis of exactly k+1 points, no two simplices sharing a basis) is proved for every history of in-contract operations (points, add by basis, deletions, restrict, renames) and for flag / Vietoris-Rips results; after add by faces with caller-supplied faces, subdivide, bulk add, compose: proved only for complexes on <= 4 points (kernel sweep); beyond that by the wf oracle after every step of every history. maxOrder = largest populated order is proved for every history of public operations'],
  'C02': ['subdivide beyond 4 points; bulk add under a renaming; attribute read-back (oracle c02-pre/post); the vertex-set effects of add by basis, delete, delete by basis and restrict are proved for every complex that meets the vertex-set reading'],
  'C03': ['d.d = 0 and boundary() of chains on complexes built out of contract (views oracle after every step); shapes, entries, cofaces = inverse of faces and basis = points of the closure are proved for every history, d.d = 0, boundary() = mod-2 sum and boundary of a boundary = [] for every complex that meets the vertex-set reading'],
- 'C04': ['sortedness by order, exclude_self variants, lookup by faces beyond 4 points; disjoint() beyond 3 points and for 4-tuples; returned names having the Python type they were created with (oracle c04); subsets / supersets / 2^(k+1)-1 members / lookup by basis are proved for every complex that meets the vertex-set reading'],
+ 'C04': ['lookup by faces beyond 4 points; disjoint() beyond 3 points and for 4-tuples; returned names having the Python type they were created with (oracle c04); subsets / supersets / 2^(k+1)-1 members / lookup by basis are proved for every complex that meets the vertex-set reading, sortedness by order and the exclude_self / reverse variants of closureOf and partOf for every history'],
  'C05': ['continuation after a rejected call for requests with generated names / fresh dictionaries (twin-history oracle, up to generated names); atomicity of addSimplexWithBasis / relabel beyond the cases proved; a classification-complete invalid <=> rejected'],
  'C06': ['invariance under insertion order / copies / decoding (oracle c06-inv); the boundary operators being those of the stored complex is C03; the rank formula, orders above the maximum, Euler-Poincare, independence of names and betti 0 = number of connected components are proved'],
  'C07': ['nothing of the statement is left to testing alone: shape and rank of the normal form, count, cycles (on the matrix and through boundary()) and independence are proved on the model; the oracle c07 ties them to the code'],
  'C08': ['that the *code* does not write through numpy views or shared dictionaries (before/after oracle on every call); heap frames of constructors other than copy'],
- 'C09': ['contents and freshness of flagComplex / vietorisRipsComplex / Filtration.copy; follow-up mutation scripts on either side (oracles fresh, same-content, unchanged); names / orders / faces / attribute values of copy() are proved'],
+ 'C09': ['freshness (ownership of attribute dictionaries) of flagComplex / vietorisRipsComplex results and contents of Filtration.copy; follow-up mutation scripts on either side (oracles fresh, same-content, unchanged, deepcopy-filt); names / orders / faces / attribute values of copy() and that copy() never fails are proved; contents of flag / VR results are C11 / C12'],
  'C10': ['nothing of the statement is left to testing alone: the six operators, the order laws, copy == source, delete => strictly smaller and differ => never equal are proved on the model; the oracle c10 ties them to the code on mutated copies'],
- 'C11': ['a simplex exactly on the cliques beyond 4 points, idempotence, growFlagComplex = rebuild (oracles c11, samefam); same points and edges, source contained with names / orders / faces, only orders >= 2 added are proved for every complex'],
- 'C12': ['the family for arbitrary point sets in binary64 (oracle c12 with its own metric; the binary64 model itself is compared bit for bit with the code on every run); negative radius and diameter cases beyond the examples'],
+ 'C11': ['attributes of K in the flag complex; that a concrete sequence "flag complex, add edges, grow" meets the hypotheses of the grow = rebuild theorem is tested (oracles c11, samefam); flag complex = clique complex in both directions, idempotence, soundness of grow, grow = rebuild (for new simplices without other cofaces on a complex that is flag-complete apart from them) are proved for every complex that meets the vertex-set reading'],
+ 'C12': ['which pairs are close: the binary64 test distance <= eps is compared bit for bit with the code on every run and handed to the model as a list; its monotonicity in eps on doubles is not proved (oracle c12 with its own metric, subfam). The family for every set of close pairs, monotonicity in the set of pairs, no pair => just the points, all pairs => full simplex are proved'],
  'C13': ['indices() / simplicesAddedAtIndex bookkeeping against the births, deletion of the whole star across indices, complexes() as a whole, addSimplexWithBasis on a filtration (shadow-log oracle c13); monotone views, births, views closed under faces and closed snapshots are proved for every history'],
  'C14': ['numberOfSimplices / per-order counts as lists, Betti numbers of the index-aware queries against the snapshot (oracle c14 per query; membership / order / faces of visible simplices, the listings per order and as a whole and the Euler characteristic are proved for every filtration history); setMinimumIndex / setMaximumIndex'],
- 'C15': ['the renaming function of a whole relabel being the user mapping on every name, attributes along it, relabelDisjointFrom renaming only collisions, addSimplicesFrom isomorphism (oracle c15-pre/post); names-only, structure carried and Betti invariance are proved'],
+ 'C15': ["attributes along the renaming, relabelDisjointFrom renaming only collisions, addSimplicesFrom under a renaming being an isomorphic copy (oracle c15-pre/post); names-only, structure carried, Betti invariance, the renaming being the user's (m.get(s, s) for a dict), the returned mapping listing exactly the changed names, and the at-most-once call are proved"],
  'C16': ['compatible => accepted, merged attribute values, target complexes (oracle c16); result = union and accepted => compatible are proved for every pair'],
- 'C17': ['the JSON text layer (json.dumps / loads, files), name types, nested / unicode attribute values, wrapping in other JSON, filtrations, acceptance of every encoding (oracle c17); the structural round trip is proved for every complex'],
- 'C18': ['counts as binomials and Betti numbers beyond k = 6; skeleton / ring / lattice on arbitrary targets beyond 3 points; requested name / attributes of the top simplex on non-empty targets (oracle c18); k_simplex / k_void in vertex sets with the frame clause are proved for every target that meets the vertex-set reading'],
+ 'C17': ['the JSON text layer (json.dumps / loads, files), name types, nested / unicode attribute values, wrapping in other JSON, filtrations (oracle c17); the structural round trip and acceptance of every encoding by the decoder are proved at the level of the encoded records'],
+ 'C18': ['Betti numbers beyond k = 6; skeleton / ring / lattice on arbitrary targets beyond 3 points; requested name / attributes of the top simplex on non-empty targets (oracle c18); k_simplex / k_void in vertex sets with the frame clause and their binomial counts are proved for every k and every target that meets the vertex-set reading'],
  'C19': ['additivity over disjoint unions, input unchanged, complexes built out of contract (oracle c19); the level-set and simplex-wise formulas with the default value are proved for every complex that meets the vertex-set reading, Euler characteristic = alternating Betti sum for every history'],
  'C20': ['positionsOf / len / in against the complex (oracle c20); Euclidean distance and lattice positions on arbitrary doubles: the binary64 model is compared bit for bit with the code on every run, not proved about real numbers'],
 }
